@@ -270,9 +270,15 @@ func ReadMesh(in io.Reader) ([]ObjMesh, []string, error) {
 			}
 
 			if !workingGeom.empty() {
+				// Close the material range still open in the group we're leaving
+				if trisSenseLastMat > 0 && len(workingGeom.meshMats) > 0 {
+					workingGeom.meshMats[len(workingGeom.meshMats)-1].PrimitiveCount = trisSenseLastMat
+				}
 				geoms = append(geoms, workingGeom.toMesh())
 				workingGeom = newObjMeshReading()
 			}
+			// Faces are counted per group
+			trisSenseLastMat = 0
 			workingGeom.name = groupName
 
 		case "f":
